@@ -176,6 +176,9 @@ func getRanger(v reflect.Value) (r Ranger, cleanup func(), err error) {
 	}
 
 	pool, ok := poolsByKind[v.Kind()]
+	if ok && v.Kind() == reflect.Chan && v.Type().ChanDir()&reflect.RecvDir == 0 {
+		ok = false // a send-only channel cannot be received from
+	}
 	if !ok {
 		return nil, nil, fmt.Errorf("value %v (type %s) is not rangeable", v, t)
 	}
